@@ -670,11 +670,12 @@ def coq_case(c, o, fix):
         hist = "(Some (%s, %s))" % (
             vlib.coq_list("(%s, %s)" % (vlib.coq_bytes(kk.encode()), pyval_coq(x)) for kk, x in doc[1]),
             vlib.coq_list("(%s, %s)" % (vlib.coq_bytes(kk.encode()), pyval_coq(x)) for kk, x in sets))
-    return "mkCase %d %d %s %s %s %s %s %s %s %s %s %s %s %s %s %s %s %s %s" % (
+    return "mkCase %d %d %s %s %s %s %s %s %s %s %s %s %s %s %s %s %s %s %s (%s, %s)" % (
         c["id"], kind, vlib.coq_bool(c["req"]), vlib.coq_bytes(c["key"]), v, vlib.coq_bytes(tag_text(c)),
         type_coq(c["type"]), vlib.coq_bool(fix), obs_coq(o.get("prefix")), obs_coq(o.get("value")), obs_coq(o.get("prop")),
         pre, obs_coq(o.get("fresh")), coq_opt_bytes(c.get("dflt")), vlib.coq_bytes(c.get("pfx", "")),
-        vlib.coq_bytes(c.get("sfx", "")), coq_opt_bytes(c.get("mapper")), get2, hist)
+        vlib.coq_bytes(c.get("sfx", "")), coq_opt_bytes(c.get("mapper")), get2, hist,
+        vlib.coq_bytes(c.get("xb", "")), vlib.coq_bytes(c.get("xa", "")))
 
 
 # ------------------------------------------------------------------------------------------------
@@ -815,7 +816,7 @@ def gen_group_case(rng, key):
         c["value"], c["req"], c["dflt"] = ["s", ""], False, rng.choice(DEFAULTS)
     elif rr < 0.32 and t == ["string"]:
         c["kind"], c["pfx"], c["sfx"] = "tpl", rng.choice(["pre-", "http://", "id=", ""]), rng.choice(["-post", "/p", ".local"])
-    return c
+    return add_xargs(rng, c, 0.25)
 
 
 def gen_group(rng, gid):
@@ -944,7 +945,7 @@ def gen_retry_binding(rng, key):
             if v0 != c["value"]:
                 break
         c["value0"] = v0
-    return c
+    return add_xargs(rng, c, 0.3)
 
 
 def retry_stuck(c):
@@ -1128,6 +1129,13 @@ def group_cases(g):
 
 
 def gen_cases(ctx, n):
+    out = gen_cases_plain(ctx, n)
+    for c in out:
+        add_xargs(ctx.rng, c, 0.65 if c.get("stream") in ("absent", "optional", "default") else 0.25)
+    return out
+
+
+def gen_cases_plain(ctx, n):
     rng = ctx.rng
     out = []
     for _ in range(n):
@@ -1213,7 +1221,26 @@ def load_corpus():
 
 
 def case_args(c):
-    return ("" if c["req"] else ",required=false") + (",mapper=" + c["mapper"] if c.get("mapper") is not None else "")
+    return (c.get("xb", "") + ("" if c["req"] else ",required=false") +
+            (",mapper=" + c["mapper"] if c.get("mapper") is not None else "") + c.get("xa", ""))
+
+
+XARGS = [",x=1", ",note=a b", ",Zed", ",k1={a,b} [1,2]", ",y=", ",q=(x, y)"]
+
+
+def add_xargs(rng, c, share=0.3):
+    """further arguments around the ones the binding reads, so that required=false / mapper= come first, last or in the
+    middle of 2-5 arguments; validate=omitempty (passes on every value) on scalar fields only - on struct fields the
+    validate processor validates the struct whatever the argument says"""
+    if c["kind"] == "lit" or rng.random() >= share:
+        return c
+    pool = XARGS + ([",validate=omitempty", ",validate=omitempty"] if c["type"][0] in ("string", "bool", "int", "uint", "float") else [])
+    r = rng.random()
+    nb, na = (rng.choice([1, 2]), 0) if r < 0.35 else (0, rng.choice([1, 2])) if r < 0.6 else (rng.choice([1, 2]), rng.choice([1, 2]))
+    pool = list(dict.fromkeys(pool))
+    picks = rng.sample(pool, min(len(pool), nb + na))
+    c["xb"], c["xa"] = "".join(picks[:nb]), "".join(picks[nb:])
+    return c
 
 
 def go_case(c, with_yaml=True):
@@ -1269,7 +1296,8 @@ def go_group(g):
 
 
 DEFS = {"M": "mismatches", "V": "violations", "K": "known", "U": "unmodelled", "NT": "count_nontrivial",
-        "DC": "domain_counts", "PC": "prefill_counts", "CC": "class_counts", "SC": "sharing_counts", "RC": "retry_counts"}
+        "DC": "domain_counts", "PC": "prefill_counts", "CC": "class_counts", "SC": "sharing_counts", "RC": "retry_counts",
+        "XC": "xargs_counts"}
 NCC = 11
 
 
@@ -1334,6 +1362,8 @@ def evaluate(ctx, binp, cases, tag, groups=()):
     out["SC"] = [sum(sc[i::4]) for i in range(4)]
     rcn = out["RC"]
     out["RC"] = [sum(rcn[i::4]) for i in range(4)]
+    xc = out["XC"]
+    out["XC"] = [sum(xc[i::3]) for i in range(3)]
     out["odd"] = odd
     return by_id, out
 
@@ -1365,7 +1395,7 @@ def case_size(c):
     return value_size(c["value"]) + type_size(c["type"]) + len(c["text"]) + \
         (len(json.dumps(c["pre"])) // 8 + 1 if c.get("pre") is not None else 0) + \
         (1 + len(c["dflt"]) if c.get("dflt") is not None else 0) + len(c.get("pfx", "")) + len(c.get("sfx", "")) + \
-        (2 if c.get("mapper") is not None else 0)
+        (2 if c.get("mapper") is not None else 0) + len(c.get("xb", "")) + len(c.get("xa", ""))
 
 
 def entry_size(e):
@@ -1433,6 +1463,16 @@ def shrink_candidates(c):
             d = copy.deepcopy(c)
             d["dflt"] = None
             out.append(d)
+        for f in ("xb", "xa"):                           # further arguments: none, or one fewer
+            if c.get(f):
+                d = copy.deepcopy(c)
+                d[f] = ""
+                out.append(d)
+                parts = c[f].split(",")[1:]
+                if len(parts) > 1 and "{" not in c[f] and "(" not in c[f]:
+                    d = copy.deepcopy(c)
+                    d[f] = "," + ",".join(parts[1:])
+                    out.append(d)
     else:
         t = c["text"]
         if len(t) > 1:
@@ -1773,7 +1813,7 @@ def run(ctx):
     for c in cases:
         o = by_id[c["id"]]["observed"]
         h = vlib.stable_hash([c["kind"], c["value"], c["type"], c["req"], c["text"], bool(c.get("absent")), c.get("pre"),
-                              c.get("dflt"), c.get("pfx", ""), c.get("sfx", ""), c.get("mapper")])
+                              c.get("dflt"), c.get("pfx", ""), c.get("sfx", ""), c.get("mapper"), c.get("xb", ""), c.get("xa", "")])
         distinct[h] = 1
         oks = [o.get(r) for r in ("prefix", "value", "prop") if o.get(r) is not None and o.get(r)["o"] == "ok"]
         if oks:
@@ -1938,6 +1978,16 @@ def run(ctx):
                                       for g in sgroups for c in group_cases(g)),
           "measured in Coq: [bindings with Configure.Get read again after the scribbling; ... whose configured value is a map / "
           "list; ... bound ok by prefix; ... whose field type takes the configured value as it is (embed)]": res["SC"]}
+    xcases = [c for c in cases if c.get("xb") or c.get("xa")]
+    xa_stats = {"cases whose tags carry further arguments around required=false / mapper= (2-5 arguments in all)": len(xcases),
+                "required=false first (arguments only behind it)": sum(1 for c in xcases if not c["req"] and not c.get("xb")),
+                "required=false last": sum(1 for c in xcases if not c["req"] and not c.get("xa") and c.get("mapper") is None),
+                "required=false in the middle": sum(1 for c in xcases if not c["req"] and c.get("xb") and (c.get("xa") or c.get("mapper") is not None)),
+                "with validate=omitempty": sum(1 for c in xcases if "validate" in c.get("xb", "") + c.get("xa", "")),
+                "with a bracketed value that contains a comma": sum(1 for c in xcases if "{a,b}" in c.get("xb", "") + c.get("xa", "") or "(x, y)" in c.get("xb", "") + c.get("xa", "")),
+                "by stream": hist(c["stream"] for c in xcases),
+                "measured in Coq: [cases with further arguments; ... with required=false among them; ... of those whose key is "
+                "absent and whose value / prop routes left the field alone without failing]": res["XC"]}
     rgroups = [g for g in groups if g.get("retry")]
     rcases = [c for g in rgroups for c in group_cases(g)]
     rt = {"retry groups (one App each: lazy components requested, refused after the placeholder pass, Configure.Set, requested "
@@ -1990,7 +2040,8 @@ def run(ctx):
                                "route_outcomes(prefix/value/prop)": routes,
                                "high_precision_floats": precise, "prefilled_fields": pre,
                                "placeholder_defaults_and_templates": dfl, "mapper_arguments_and_groups": mp,
-                               "sharing_groups": sh, "populated_twice(retry groups)": rt},
+                               "sharing_groups": sh, "populated_twice(retry groups)": rt,
+                               "further_tag_arguments": xa_stats},
         "cases": len(cases),
         "distinct_cases": len(distinct),
         "nontrivial_cases_coq": res["NT"],
